@@ -88,7 +88,7 @@ LDebug(L, x) ==
         n  == Len(x.f)
     IN  IF n = 0 THEN vr.name
         ELSE IF vr.shape = "named"
-             THEN vr.name \o " { " \o LJoin([j \in 1..n |-> "f" \o LS(j - 1) \o ": " \o WLeaf(x.f[j])], 1) \o " }"
+             THEN vr.name \o " { " \o LJoin([j \in 1..n |-> vr.fields[j].name \o ": " \o WLeaf(x.f[j])], 1) \o " }"
              ELSE vr.name \o "(" \o LJoin([j \in 1..n |-> WLeaf(x.f[j])], 1) \o ")"
 
 \* {:#?}: DxRun.RenderAlt over the leaves' own alternate renderings, joined with line feeds
@@ -97,7 +97,7 @@ RECURSIVE JoinNL(_, _)
 JoinNL(lines, i) == IF i > Len(lines) THEN "" ELSE (IF i > 1 THEN "\n" ELSE "") \o lines[i] \o JoinNL(lines, i + 1)
 LDebugAlt(L, x) ==
     LET vr == L.variants[x.v]
-    IN  JoinNL(RenderAlt(vr.name, vr.shape = "named", [j \in DOMAIN x.f |-> [name |-> "f" \o LS(j - 1), alt |-> WLeafAlt(x.f[j])]]), 1)
+    IN  JoinNL(RenderAlt(vr.name, vr.shape = "named", [j \in DOMAIN x.f |-> [name |-> vr.fields[j].name, alt |-> WLeafAlt(x.f[j])]]), 1)
 
 (***************************************************************************)
 (* Actions.  One uniform record shape so that histories are sequences of   *)
